@@ -3,7 +3,7 @@ import re
 from vcheck import Check
 
 VALS = [0x1122334455667788, 0xffeeddccbbaa9988, 0x0102030405060708, 0xdeadbeefcafef00d,
-        0x8000000000000001, 0x1, 0xff, 0x100, 0x1122334455000000, 0x7fffffffffffffff, 0xa5a5a5a5a5a5a5a5]
+        0x8000000000000001, 0x1, 0xff, 0x100, 0x1122334455000000, 0x7fffffffffffffff, 0x5a5a5a5a5a5a5a5a]
 POISON = 0xa5a5a5a5a5a5a5a5
 
 
@@ -30,15 +30,17 @@ class Spec:
         return sorted(a[n] for a in self.arrs if a is not None and a.get(n, 0) != 0)
 
 
-def clobbered(exp, got):
-    """got is exp with some low-order bytes zeroed, or leftover 0xA5 filling possibly so zeroed"""
-    for base in (exp, POISON):
+def clobber_candidates(exp):
+    """what a slot holding exp may hold after the byte-counting memset of a resize: exp with
+    low-order bytes zeroed; for a slot created by the resize (exp = 0), 0xA5 filling so zeroed"""
+    out = set()
+    for k in range(1, 9):
+        out.add((exp >> (8 * k)) << (8 * k))
+    if exp == 0:
         for k in range(0, 9):
-            if k == 0 and base == exp:
-                continue
-            if got == (base >> (8 * k)) << (8 * k) and got != exp:
-                return True
-    return False
+            out.add((POISON >> (8 * k)) << (8 * k))
+    out.discard(exp)
+    return out
 
 
 class Fail(Exception):
@@ -82,17 +84,70 @@ def replay(case, obs):
     if len(segs) < 1:
         raise Fail("unparsable", "empty observation")
 
-    def valcheck(a, n, exp, got, what):
-        if exp == got:
+    prev = {}            # array -> (known_infos, slots) printed after the previous op
+
+    def slot_candidates(a, n, cur):
+        """Contents the slot of (a, n) may really have had when the op ran, with the class of history
+        that explains a difference from the dictionary value cur: the slot printed before the op when
+        it existed; 0xA5 filling when the op itself made the array grow by realloc."""
+        iid = sp.names[n]["id"]
+        kb, slots = prev.get(a, (0, []))
+        out = []
+        if iid < kb:
+            c = slots[iid]
+            if c != cur:
+                stale = set(sp.stale[a])
+                if grown.get(a):
+                    stale |= {x for v in sp.stale[a] for x in clobber_candidates(v)}
+                if cur == 0 and c in sp.stale[a]:
+                    out.append((c, "stale-slot-after-unregister"))
+                elif grown.get(a) and c in clobber_candidates(cur):
+                    out.append((c, "resize-clobbers-slot"))
+                elif cur == 0 and c in stale:
+                    out.append((c, "stale-slot-after-unregister"))
+        elif kb > 0 and cur == 0:
+            out += [(c, "resize-clobbers-slot") for c in clobber_candidates(0)]
+        return out
+
+    def valcheck(a, n, cur, got, called, what, ret, calls):
+        """cur: what the dictionary holds for (a, n); ret(c) / calls(c): what the operation returns, and
+        whether it runs the constructor, when the slot holds c.  A wrong result is attributed to a known
+        class only when it is the right result for a slot clobbered by an earlier resize / left behind
+        by an unregistered info (as the printed arrays show)."""
+        if ret(cur) == got and calls(cur) == called:
             return
-        if a is not None and grown.get(a) and clobbered(exp, got):
-            raise Fail("resize-clobbers-slot", "%s: array %d returned %x, the value stored is %x (the array grew)"
-                       % (what, a, got, exp))
-        if a is not None and exp in (0,) and got in sp.stale[a]:
-            raise Fail("stale-slot-after-unregister",
-                       "%s: array %d returned %x for name %s which was never given that value (left by an "
-                       "unregistered info that had the same id)" % (what, a, got, n))
-        raise Fail("value-mismatch", "%s: got %x, expected %x" % (what, got, exp))
+        for c, sig in slot_candidates(a, n, cur):
+            if ret(c) == got and calls(c) == called:
+                raise Fail(sig, "%s: returned %x%s as for a slot holding %x; the value stored for that name is %x"
+                           % (what, got, " (constructor called)" if called else "", c, cur))
+        if ret(cur) != got:
+            raise Fail("value-mismatch", "%s: got %x, expected %x" % (what, got, ret(cur)))
+        raise Fail("constructor-mismatch", "%s: constructor %s" % (what, "called" if called else "not called"))
+
+    def evcheck(names, got, what):
+        """destructor calls: got must be the non-NULL values stored under these names (with destructor)"""
+        exp = sorted(v for n in names if sp.names[n]["dtor"] for v in sp.destroyed(n))
+        if exp == sorted(got):
+            return
+        extra, missing = list(got), list(exp)
+        for v in exp:
+            if v in extra:
+                extra.remove(v)
+        for v in got:
+            if v in missing:
+                missing.remove(v)
+        anygrown = any(grown.get(a) for a in range(len(sp.arrs)))
+        stale_all = [v for st in sp.stale for v in st]
+        if extra and all(g in stale_all for g in extra) and not missing:
+            raise Fail("stale-slot-after-unregister", "%s: destructor called on %s, left behind by an unregistered "
+                       "info that had the same id" % (what, [hex(x) for x in extra]))
+        if anygrown and all(g in clobber_candidates(0) or any(g in clobber_candidates(e) for e in missing)
+                            for g in extra) and \
+                (len(extra) >= len(missing) or all(0 in clobber_candidates(e) for e in missing)):
+            raise Fail("resize-clobbers-slot", "%s: destructor called on %s, the stored values are %s (an array grew)"
+                       % (what, [hex(x) for x in got], [hex(x) for x in exp]))
+        raise Fail("destructor-mismatch", "%s: destructed %s, the stored values are %s"
+                   % (what, [hex(x) for x in got], [hex(x) for x in exp]))
 
     for k, tok in enumerate(ops):
         if k >= len(segs):
@@ -139,16 +194,7 @@ def replay(case, obs):
                 d = sp.names[n]
                 if int(m.group(1)) != d["id"]:
                     raise Fail("unregister-mismatch", "unregister(id %d of name %d) returned %s" % (d["id"], n, m.group(1)))
-                exp = sp.destroyed(n) if d["dtor"] else []
-                got = sorted(hexlist(m.group(2)))
-                if exp != got:
-                    for a, arr in enumerate(sp.arrs):
-                        if arr is not None and arr.get(n, 0) != 0 and d["dtor"]:
-                            for g in got:
-                                if g not in exp:
-                                    valcheck(a, n, arr[n], g, "destructor call at unregister")
-                    raise Fail("destructor-mismatch", "unregister(name %d) destructed %s, the stored values are %s"
-                               % (n, [hex(x) for x in got], [hex(x) for x in exp]))
+                evcheck([n], hexlist(m.group(2)), "unregister(name %d)" % n)
                 for a, arr in enumerate(sp.arrs):
                     if arr is not None and arr.get(n, 0) != 0:
                         if not d["dtor"]:
@@ -194,39 +240,25 @@ def replay(case, obs):
                 got, called, evs = int(m.group(1), 16), int(m.group(2)), hexlist(m.group(3))
                 arr = sp.arrs[a]
                 cur = arr.get(n, 0)
+                ct = sp.names[n]["ctor"]
+                empty = ctorval(ct, a + 1) if ct else 0       # what get returns on a NULL slot
+                calls = lambda c: 0
                 if o == "S":
-                    exp, ecall = cur, 0
-                    arr[n] = int(f[3], 16)
+                    ret = lambda c: c
+                    new = int(f[3], 16)
                 elif o == "T":
                     v, old = int(f[3], 16), int(f[4], 16)
-                    ecall = 0
-                    if cur == old:
-                        exp = v
-                        arr[n] = v
-                    else:
-                        exp = cur
+                    ret = lambda c: v if c == old else c
+                    new = v if cur == old else cur
                 else:
-                    ct = sp.names[n]["ctor"]
-                    if cur != 0 or ct == 0:
-                        exp, ecall = cur, 0
-                    else:
-                        exp, ecall = ctorval(ct, a + 1), 1
-                        if exp != 0:
-                            arr[n] = exp
-                if n in arr and arr[n] == 0:
+                    ret = lambda c: c if c != 0 else empty
+                    calls = lambda c: 1 if (c == 0 and ct != 0) else 0
+                    new = cur if cur != 0 else empty
+                valcheck(a, n, cur, got, called, tok, ret, calls)
+                if new != 0:
+                    arr[n] = new
+                elif n in arr:
                     del arr[n]
-                # refresh the growth record before judging this op: the op itself may have grown the array
-                try:
-                    _, _, arrs_now = parse_state(state)
-                    if a < len(arrs_now) and arrs_now[a] is not None:
-                        kn = arrs_now[a][0]
-                        if a in last_known and 0 < last_known[a] < kn:
-                            grown[a] = True
-                except Fail:
-                    pass
-                valcheck(a, n, exp, got, tok)
-                if called != ecall:
-                    raise Fail("constructor-mismatch", "%s: constructor %s" % (tok, "called" if called else "not called"))
                 if evs:
                     raise Fail("destructor-mismatch", "%s: destructor called on %s" % (tok, [hex(x) for x in evs]))
         else:
@@ -238,6 +270,9 @@ def replay(case, obs):
                 if a in last_known and 0 < last_known[a] < x[0]:
                     grown[a] = True
                 last_known[a] = x[0]
+                prev[a] = x
+            else:
+                prev.pop(a, None)
         ids = [i for i, _ in reg]
         if len(set(ids)) != len(ids):
             raise Fail("id-reuse-after-hole" if sp.unregs else "id-reuse", "the registry lists an id twice: %s" % reg)
@@ -252,33 +287,61 @@ def replay(case, obs):
     m = re.match(r"^end ~\[([0-9a-f,]*)\]$", end)
     if not m:
         raise Fail("noreturn", "end of case printed " + end[:60])
-    exp = sorted(v for n, d in sp.names.items() if d["dtor"] for v in sp.destroyed(n))
-    got = sorted(hexlist(m.group(1)))
-    if exp != got:
-        for a, arr in enumerate(sp.arrs):
-            if arr is not None and grown.get(a):
-                for g in got:
-                    if g not in exp and any(clobbered(e, g) for e in exp):
-                        raise Fail("resize-clobbers-slot", "registry destructor destructed %x, not a stored value" % g)
-        raise Fail("destructor-mismatch", "registry destructor destructed %s, the stored values are %s"
-                   % ([hex(x) for x in got], [hex(x) for x in exp]))
+    evcheck(list(sp.names), hexlist(m.group(1)), "registry destructor")
 
 
 class C41(Check):
     id = "C41"
     prop_file = "theories/Properties/Properties_C41.v"
-    theorems = ()
+    theorems = ("C41_ids_distinct", "C41_register_fresh_id", "C41_lookup_returns_registered_id",
+                "C41_unregister_frees_id", "C41_unregister_unknown_id", "C41_operations_return",
+                "C41_results_refine_dictionary", "C41_get_returns_last_set", "C41_test_and_set_returns_stored",
+                "C41_test_and_set_only_on_match",
+                "C41_ids_distinct_refuted", "C41_lookup_returns_registered_id_refuted",
+                "C41_operations_return_refuted", "C41_get_returns_last_set_refuted",
+                "C41_fresh_info_reads_null_refuted")
     comp = "info"
     extract_file = "theories/Extract/Extract_Info.v"
     extracted = ("info",)
     harness_src = "harness/h_info.c"
     link_parsec = False
-    level_text = "TODO"
-    level_note = "TODO"
-    technique = "TODO"
-    rule = "TODO"
-    trusted = ()
-    assumptions = ()
+    level_text = (
+        "Coq theorems, for EVERY sequence of register / unregister / lookup / new array / destruct array / set / get / "
+        "test_and_set operations, about an executable model that mirrors the loops of info.c (id-allocation scan with "
+        "next_item, unregister scan with break / max_id recomputation, byte-counting memset after realloc, destructor "
+        "loop over the ioa_list): live ids pairwise distinct and <= max_id, register returns a fresh id, lookup returns "
+        "the id the client was given until it unregisters, unregister frees exactly that id, no NULL dereference; and a "
+        "refinement theorem: the results of any operation sequence, ids erased, are those of a dictionary keyed by "
+        "(array, name) - get returns the last value set / test-and-set / constructed, untouched by registrations, registry "
+        "and array growth and other names' operations; test_and_set stores only on a match and returns what is stored; "
+        "destructors run once per stored value at unregistration.  These theorems hold for the REPAIRED rules; for each of "
+        "the three rules of the unchanged code (fixes flags of InfoDefs.v) a _refuted theorem gives the operation sequence "
+        "on which the property fails, and the check replays it on the real code.  The model that is run against /repo is "
+        "selected by InfoCode.code_fixes (all false = unchanged code).  Sequential (T-seq) level: full for sequential "
+        "histories; the concurrent part of the statement (rwlock-protected resize, CAS in test_and_set) is not modelled.")
+    level_note = ("Trusted: Coq kernel, extraction, harness, the Python dictionary oracle.  The harness #includes info.c with its "
+                  "allocator calls redirected so that realloc-grown memory is filled with 0xA5 and calloc'ed memory is zero: "
+                  "indeterminate bytes become a visible value, the model uses the same constant.  Little-endian 64-bit pointers.  "
+                  "Clients use the id returned by register and only ids <= max_id (the harness refuses others as the assert "
+                  "in the code would); parsec_info_get with a negative id (returns NULL) is not modelled.")
+    technique = ("Coq proof (sortedness invariant of the registry under the repaired insertion rule; forward simulation of a "
+                 "dictionary specification by the slot arrays) + vm_compute witnesses for the unchanged rules + differential "
+                 "run of info.c (included in the harness, poisoning allocator) against the extracted model, results and full "
+                 "registry / array contents compared after every operation")
+    rule = ("op sequences over a pool of 6 names (16 for directed growth) and up to 5 arrays: (a) holes: k=2..6 names, "
+            "unregister at the beginning / middle / end (one or two holes), 1..3 more registrations, lookups, sets, gets; "
+            "(b) growth: 0..4 names, an array with a value in every slot, 1..11 more names (crossing the 8-byte boundary of "
+            "the byte-counting memset), first use of a new id on the old array by get / set / test_and_set, all values read "
+            "back; (c) random mixes of all nine operations, mostly valid (test_and_set with old = current / NULL / other), "
+            "with constructors (incl. one returning NULL) and destructors.  Non-trivial = at least one registration and one "
+            "set/get/test_and_set/unregister; distinct = distinct case text")
+    trusted = ("harness/h_info.c: info.c, parsec_list.c, parsec_object.c, parsec_rwlock.c are #included; malloc/calloc/realloc/"
+               "free/strdup inside info.c go to wrappers (0xA5 fill, zero fill, 0x5A on free); cases run in a forked child so "
+               "that a crash of the code under test is an observation",
+               "the constructor / destructor callbacks are the harness' own (constructor value = f(cons_data, cons_obj))")
+    assumptions = ("sequential use (one thread); malloc/realloc never fail; int ids far from overflow",
+                   "64-bit little-endian pointers (the memset of the unchanged code clears low-order bytes)",
+                   "clients pass ids returned by parsec_info_register, not above max_id")
 
     # ------------------------------------------------------------------ generator
     def reg_tok(self, r, n):
@@ -382,7 +445,9 @@ class C41(Check):
         return " ".join(out)
 
     def cases(self):
-        r = self.rng
+        # Rng(seed) and Rng(seed+1) are the same SplitMix64 stream shifted by one draw and fall into
+        # step after the first case; a fork (seeded by a mixed output) gives unrelated streams per seed
+        r = self.rng.fork()
         quick = self.tier == "quick"
         out = []
         # holes at the beginning / middle / end, one or two of them, followed by 1..3 registrations
